@@ -12,14 +12,14 @@ TECHNIQUE = 'runtime monitoring: configuration matrix driven under a determinist
 RULE = ('the matrix {subscriber states spied / not} x {subscriber constructed instrumented / not} x {named / unnamed} x {subscribe before '
         'start_at / after it from outside / from inside one of its handlers} x {fifo, lifo} x {0, 1, 2 other active objects already '
         'subscribed to the same signal} x {publisher states spied / not} x {publish before the publisher\'s start_at / after it from outside '
-        '/ from inside a handler}; in the subscribe-inside cells two further objects subscribe from inside their own handlers at the same time, each on its own thread; every cell is driven under detsched (random / PCT schedules, quiescence between phases); each unique-id '
+        '/ from inside a handler}; in the subscribe-inside cells two further objects subscribe from inside their own handlers at the same time, each on its own thread; in a fifth of the cells the running fabric is cleared (clear() without stop()) before the subscriber under test subscribes; every cell is driven under detsched (random / PCT schedules, quiescence between phases); each unique-id '
         'publication made after the subscription must be dispatched exactly once by the subscriber and by every earlier subscriber. '
         'distinct_nontrivial = distinct matrix cells run (x schedule in the thorough tier)')
 CELLS = list(itertools.product((True, False), (True, False), (True, False), ('before', 'after', 'inside'), ('fifo', 'lifo'), (0, 1, 2),
                                (True, False), ('before', 'after', 'inside')))
 CASES = {'quick': len(CELLS), 'thorough': len(CELLS) * 60}
-BUDGET = {'quick': 60, 'thorough': 300}
-REQUIRE = {'cells_run': 800, 'publications_checked': 2000, 'concurrent_subscribes': 200}
+BUDGET = {'quick': 150, 'thorough': 300}
+REQUIRE = {'cells_run': 600, 'publications_checked': 1500, 'concurrent_subscribes': 150, 'cells_with_fabric_cleared_while_running': 60}
 ASSUME = ['decoration is all-or-none per chart; each phase is followed by quiescence so "later publications" is unambiguous']
 ANNOUNCE_CASES = True
 
@@ -62,6 +62,15 @@ def run_case(ctx, n):
         a.start_at(make_state(h, 'c07_other_%d' % i, True, 'fifo'))
         earlier.append((a, h))
       s.quiesce()
+      # in a fifth of the cells the running fabric is cleared (ActiveFabric().clear(), no stop) before the subscriber under test
+      # arrives: the earlier subscribers lose their subscriptions (not judged here), later subscriptions must work as ever
+      cleared = rng.random() < 0.2
+      if cleared:
+        AO.ActiveFabric().clear()
+        ctx.count('cells_with_fabric_cleared_while_running')
+        earlier_checked = []
+      else:
+        earlier_checked = earlier
       twins = []
       hs = aosim.History()
       sub = aosim.make_ao(hs, name='sub' if s_named else None, instrumented=s_instr)
@@ -119,7 +128,8 @@ def run_case(ctx, n):
     if exc:
       ctx.violation('C07/exception-in-thread', 'a thread died: %r' % exc, wit)
       return
-    for who, h in [('subscriber', hs)] + [('earlier subscriber %d' % i, h) for i, (_, h) in enumerate(earlier)] + [('concurrent subscriber %d' % i, h) for i, (_, h) in enumerate(twins)]:
+    wit['fabric_cleared_while_running_before_the_subscription'] = cleared
+    for who, h in [('subscriber', hs)] + [('earlier subscriber %d' % i, h) for i, (_, h) in enumerate(earlier_checked)] + [('concurrent subscriber %d' % i, h) for i, (_, h) in enumerate(twins)]:
       for u in uids:
         ctx.count('publications_checked')
         c = h.handled.count(u)
@@ -134,6 +144,8 @@ def run_case(ctx, n):
               mech.append('publisher-states-not-spied')
             if twins and not mech:
               mech.append('concurrent-subscribe-lost')
+            if cleared:
+              mech.append('after-clear-of-running-fabric')
             key = 'C07/publication-not-received/' + ('+'.join(mech) or 'other')
           elif c == 0 and who.startswith('concurrent'):
             key = 'C07/publication-not-received/concurrent-subscribe-lost'
